@@ -1,6 +1,6 @@
 /-
   Driver glue for C01 and C02 (they share the pipeline trace):
-    c01.run / c02.run <procs> <cap> <lowmem> <bcount> <workers> <retry> <dq> <failpat> <dqfailpat>
+    c01.run / c02.run / c02.proc <procs> <cap> <lowmem> <bcount> <workers> <retry> <dq> <failpat> <dqfailpat>
             <chain> <jitter> <nsrc> <nev> (<src> s<k> <spec-hex>)…  |  <trace tokens…> <idle|stuck>
   The model replays the M1 ops of the trace (Core.step?) and echoes the trace when every step
   is enabled, `reject@<i> <token>` otherwise; P is the Spec oracle on the trace itself.
@@ -9,6 +9,7 @@ import FileD.Prelude.Tok
 import FileD.Model.Core
 import FileD.Model.StreamProc
 import FileD.Spec.C01
+import FileD.Drv.Proc
 namespace FileD.DrvC01
 open FileD FileD.Core Tok
 
@@ -197,7 +198,7 @@ def replayStreams (seqs : List (Nat × Nat)) (ops : List (String × Nat × Strea
 
 def handle (cmd : String) (args impl : List String) : Option (String × String) :=
   match args with
-  | _procs :: _cap :: _lowmem :: _bcount :: _workers :: _retry :: dq :: _fp :: _dfp :: _chain :: _jit :: _nsrc :: nev :: rest => do
+  | _procs :: _cap :: _lowmem :: _bcount :: _workers :: _retry :: dq :: _fp :: _dfp :: chain :: _jit :: _nsrc :: nev :: rest => do
     let hasDQ ← bool? dq
     let n ← nat? nev
     let infos ← parseEvents n rest []
@@ -209,6 +210,12 @@ def handle (cmd : String) (args impl : List String) : Option (String × String) 
         some (unwords impl, "fail:harness:0:0")
       else
       let trace := revTrace.reverse
+      if cmd = "c02.proc" then
+        -- processor logic only: M3's prediction against the processor-side operations of the trace
+        match DrvProc.compare chain n rest trace (seqsOf trace) with
+        | some d => some (d, "ok")
+        | none => some (unwords impl, "ok")
+      else
       match toOps infos trace with
       | none => some ("bad-trace", "fail:bad-trace:0:0")
       | some ops =>
@@ -220,7 +227,11 @@ def handle (cmd : String) (args impl : List String) : Option (String × String) 
             | some sops =>
               match replayStreams (seqsOf trace) sops with
               | some t => s!"reject-stream {t}"
-              | none => unwords impl
+              | none =>
+                -- M3: the processor's own logic predicts what it does with the events it took
+                match DrvProc.compare chain n rest trace (seqsOf trace) with
+                | some d => d
+                | none => unwords impl
         let opl := ops.map (·.2)
         let p :=
           if cmd = "c01.run" then SpecC01.verdict (SpecC01.frontier hasDQ opl)
